@@ -2,6 +2,7 @@
 package c09
 
 import (
+	"context"
 	ae "github.com/godaddy/asherah/go/appencryption"
 
 	"verifh/h/env"
@@ -28,6 +29,15 @@ func capOf(cache int) int {
 		return 4
 	}
 	return -1
+}
+
+// callCtx: the caller's context for one operation; with ctxcancel=1 it may end while a metastore / KMS call of the
+// operation is in flight (that call still succeeds).
+func callCtx() (context.Context, func()) {
+	if vx.Param("ctxcancel") == 1 {
+		return env.CancellableCtx()
+	}
+	return env.Ctx, func() {}
 }
 
 // Leaks: a history of operations (with faults) on one session; then everything is closed.
@@ -75,7 +85,9 @@ func Leaks() {
 			tick()
 			vx.FaultBudget("ext", vx.Param("faults"))
 			vx.FaultBudget("secret", vx.Param("faults"))
-			d, err := sess.Encrypt(env.Ctx, []byte{byte(i)})
+			ctx, done := callCtx()
+			d, err := sess.Encrypt(ctx, []byte{byte(i)})
+			done()
 			vx.FaultBudget("ext", 0)
 			vx.FaultBudget("secret", 0)
 			if err == nil {
@@ -87,7 +99,9 @@ func Leaks() {
 				tick()
 				vx.FaultBudget("ext", vx.Param("faults"))
 				vx.FaultBudget("secret", vx.Param("faults"))
-				sess.Decrypt(env.Ctx, *recs[vx.Choice("j", len(recs))])
+				ctx, done := callCtx()
+				sess.Decrypt(ctx, *recs[vx.Choice("j", len(recs))])
+				done()
 				vx.FaultBudget("ext", 0)
 				vx.FaultBudget("secret", 0)
 				after()
